@@ -13,7 +13,8 @@
                   exception class have (class attribute/descriptor, or assigned unconditionally at the top
                   level of the effective Python __init__);
   main_err_first / main_err_second : the `if isinstance(X_tree, str): sys.stderr.write(..) ... return N`
-                  blocks of main() (writes, status, early return), checked statement by statement;
+                  blocks of main() (writes to stderr, writes to stdout, status, early return), checked
+                  statement by statement;
   main_catches  : the `except` clauses of the try block of main() that surrounds them.
 
 Anything of an unexpected shape raises py2coq.Unsupported (the generated file then does not compile and
@@ -240,25 +241,28 @@ def find_blocks(fn):
 
 
 def parse_err_block(i, var):
-    writes = []
+    """Returns (writes to stderr, writes to stdout, status)."""
+    writes = {'sys.stderr.write': [], 'sys.stdout.write': []}
     if i.orelse:
         raise Unsupported(f'main(): else branch on the isinstance({var}, str) test')
     for s in i.body[:-1]:
         if not (isinstance(s, ast.Expr) and isinstance(s.value, ast.Call)
-                and ast.unparse(s.value.func) == 'sys.stderr.write' and len(s.value.args) == 1 and not s.value.keywords):
-            raise Unsupported(f'main(): statement in the {var} error block is not sys.stderr.write(..): {ast.unparse(s)[:60]}')
+                and ast.unparse(s.value.func) in writes and len(s.value.args) == 1 and not s.value.keywords):
+            raise Unsupported(f'main(): statement in the {var} error block is not sys.stderr.write(..) / '
+                              f'sys.stdout.write(..): {ast.unparse(s)[:60]}')
         a = s.value.args[0]
+        w = writes[ast.unparse(s.value.func)]
         if isinstance(a, ast.Name) and a.id == var:
-            writes.append('WTree')
+            w.append('WTree')
         elif isinstance(a, ast.Constant) and isinstance(a.value, str):
-            writes.append(f'(WLit {cstr(a.value)})')
+            w.append(f'(WLit {cstr(a.value)})')
         else:
-            raise Unsupported(f'main(): sys.stderr.write({ast.unparse(a)}) in the {var} error block')
+            raise Unsupported(f'main(): {ast.unparse(s.value.func)}({ast.unparse(a)}) in the {var} error block')
     last = i.body[-1]
     if not (isinstance(last, ast.Return) and isinstance(last.value, ast.Constant) and type(last.value.value) is int):
         # without the early return main() would go on to diff a str: not modelled
         raise Unsupported(f'main(): the {var} error block does not end with `return <int>`')
-    return writes, last.value.value
+    return writes['sys.stderr.write'], writes['sys.stdout.write'], last.value.value
 
 
 def parse_main(repo):
@@ -413,8 +417,9 @@ def gen_handlers(repo):
     out.append('Definition attr_table : list (string * list string) := [\n' + ';\n'.join(
         f'  ({cstr(c["qn"])}, [' + '; '.join(cstr(a) for a in c['attrs']) + '])' for c in x['classes'] if c['attrs']) + '].')
     out.append('')
-    for nm, (writes, status) in (('first', x['main']['first']), ('second', x['main']['second'])):
+    for nm, (writes, outs, status) in (('first', x['main']['first']), ('second', x['main']['second'])):
         out.append(f'Definition main_err_{nm} : main_err :=\n  {{| me_writes := [' + '; '.join(writes)
+                   + '];\n     me_stdout := [' + '; '.join(outs)
                    + f']; me_status := ({status})%Z; me_skips_diff := true |}}.')
     out.append('Definition main_catches : list (list string * Z) := [' + '; '.join(
         '([' + '; '.join(cstr(c) for c in cs) + f'], ({st})%Z)' for cs, st in x['main']['catches']) + '].')
